@@ -1,13 +1,14 @@
 import SimilarVerif.Props.C01
+import SimilarVerif.Lemmas.HookFail
 /-!
 # C08 — hook protocol: finish once and last; a hook error aborts the diff unchanged
 
 Model: a hook is `Hook σ`; the recording hook fails at call `k` when `failAt = some k`, and its error
 carries everything it was told.  Proved here: the structural clauses (finish exactly once and last;
 `NoFinishHook` forwards everything but `finish`; a hook without `replace` override receives delete then
-insert; delivering a script stops at the first error).  The abort-prefix theorem for every algorithm
-and adapter stack is Lemmas/HookFail.lean (in progress); until it is imported here that clause is
-established by the correspondence over every failing call index of every run of the `stacks` suite.
+insert; delivering a script stops at the first error).  The abort-prefix theorem (second half of this file, from
+Lemmas/HookFail.lean) holds for every algorithm and every adapter stack: a run against the hook failing
+at call `k` is the `k+1`-prefix of the run against the never-failing hook.
 -/
 namespace SimilarVerif.C08
 open SimilarVerif Spec
@@ -67,5 +68,78 @@ theorem fail_is_last (r : Rec) (c : Call) (h : r.failAt = some r.trace.length) :
 theorem deliver_stops {σ} (h : Hook σ) (c : Call) (cs : List Call) (s : σ) (w : World) (e : Abort)
     (he : h.call c s w = .error e) : deliver h (c :: cs) s w = .error e := by
   simp [deliver, he]
+
+end SimilarVerif.C08
+
+namespace SimilarVerif.C08
+open SimilarVerif Spec
+
+/-- **A hook error aborts the diff unchanged — every algorithm, no adapter.** If the run against the
+never-failing recording hook returns with trace `T`, then the run against the hook that fails at call
+`k < |T|` returns exactly that hook's error, and the hook has seen exactly `T.take (k+1)` — the calls up
+to and including the failing one, and nothing after it; if `k ≥ |T|` the run is unaffected. -/
+theorem abort_prefix_plain (alg : Alg) (E : Env) (os oe ns ne : Nat) (w : World) (native : Bool) (k : Nat)
+    {rInf : Rec} {wInf : World}
+    (hInf : diffWith alg E recHook os oe ns ne { failAt := none, nativeReplace := native } w = .ok (rInf, wInf)) :
+    (k < rInf.trace.length →
+      diffWith alg E recHook os oe ns ne { failAt := some k, nativeReplace := native } w =
+        .error (.hookErr (rInf.trace.take (k + 1)))) ∧
+    (rInf.trace.length ≤ k →
+      diffWith alg E recHook os oe ns ne { failAt := some k, nativeReplace := native } w =
+        .ok ({ rInf with failAt := some k }, wInf)) :=
+  HookFail.diff_plain alg E os oe ns ne w native k hInf
+
+/-- … wrapped in `Replace` -/
+theorem abort_prefix_replace (alg : Alg) (E : Env) (os oe ns ne : Nat) (w : World) (native : Bool) (k : Nat)
+    {aInf : RState} {rInf : Rec} {wInf : World}
+    (hInf : diffWith alg E (replaceHook recHook) os oe ns ne ({}, { failAt := none, nativeReplace := native }) w
+      = .ok ((aInf, rInf), wInf)) :
+    (k < rInf.trace.length →
+      diffWith alg E (replaceHook recHook) os oe ns ne ({}, { failAt := some k, nativeReplace := native }) w =
+        .error (.hookErr (rInf.trace.take (k + 1)))) ∧
+    (rInf.trace.length ≤ k →
+      diffWith alg E (replaceHook recHook) os oe ns ne ({}, { failAt := some k, nativeReplace := native }) w =
+        .ok ((aInf, { rInf with failAt := some k }), wInf)) :=
+  HookFail.diff_replace alg E os oe ns ne w native k hInf
+
+/-- … wrapped in `Compact` (nothing reaches the inner hook before `finish`; the buffered ops are then
+replayed in order and the first error stops the replay) -/
+theorem abort_prefix_compact (alg : Alg) (E : Env) (repair : Bool) (os oe ns ne : Nat) (w : World) (native : Bool) (k : Nat)
+    {bInf : List Op} {rInf : Rec} {wInf : World}
+    (hInf : diffWith alg E (compactHook E repair recHook) os oe ns ne ([], { failAt := none, nativeReplace := native }) w
+      = .ok ((bInf, rInf), wInf)) :
+    (k < rInf.trace.length →
+      diffWith alg E (compactHook E repair recHook) os oe ns ne ([], { failAt := some k, nativeReplace := native }) w =
+        .error (.hookErr (rInf.trace.take (k + 1)))) ∧
+    (rInf.trace.length ≤ k →
+      diffWith alg E (compactHook E repair recHook) os oe ns ne ([], { failAt := some k, nativeReplace := native }) w =
+        .ok ((bInf, { rInf with failAt := some k }), wInf)) :=
+  HookFail.diff_compact alg E repair os oe ns ne w native k hInf
+
+/-- … wrapped in `Compact` + `Replace` (the capture pipeline's adapters) -/
+theorem abort_prefix_compact_replace (alg : Alg) (E : Env) (repair : Bool) (os oe ns ne : Nat) (w : World) (native : Bool) (k : Nat)
+    {bInf : List Op} {aInf : RState} {rInf : Rec} {wInf : World}
+    (hInf : diffWith alg E (compactHook E repair (replaceHook recHook)) os oe ns ne
+      ([], ({}, { failAt := none, nativeReplace := native })) w = .ok ((bInf, (aInf, rInf)), wInf)) :
+    (k < rInf.trace.length →
+      diffWith alg E (compactHook E repair (replaceHook recHook)) os oe ns ne
+        ([], ({}, { failAt := some k, nativeReplace := native })) w = .error (.hookErr (rInf.trace.take (k + 1)))) ∧
+    (rInf.trace.length ≤ k →
+      diffWith alg E (compactHook E repair (replaceHook recHook)) os oe ns ne
+        ([], ({}, { failAt := some k, nativeReplace := native })) w =
+        .ok ((bInf, (aInf, { rInf with failAt := some k })), wInf)) :=
+  HookFail.diff_compact_replace alg E repair os oe ns ne w native k hInf
+
+/-- … wrapped in `NoFinishHook` -/
+theorem abort_prefix_noFinish (alg : Alg) (E : Env) (os oe ns ne : Nat) (w : World) (native : Bool) (k : Nat)
+    {rInf : Rec} {wInf : World}
+    (hInf : diffWith alg E (noFinishHook recHook) os oe ns ne { failAt := none, nativeReplace := native } w = .ok (rInf, wInf)) :
+    (k < rInf.trace.length →
+      diffWith alg E (noFinishHook recHook) os oe ns ne { failAt := some k, nativeReplace := native } w =
+        .error (.hookErr (rInf.trace.take (k + 1)))) ∧
+    (rInf.trace.length ≤ k →
+      diffWith alg E (noFinishHook recHook) os oe ns ne { failAt := some k, nativeReplace := native } w =
+        .ok ({ rInf with failAt := some k }, wInf)) :=
+  HookFail.diff_noFinish alg E os oe ns ne w native k hInf
 
 end SimilarVerif.C08
